@@ -65,7 +65,8 @@ def make_units(profile, seed, tier, index, opts):
             continue
         cases_by_rule[r.name] = inputs_mod.inputs_for(
             g, r.name, irnd, n_sent=t["n_sent"], n_total=t["n_inputs"],
-            ws_inject=opts.get("ws_inject", False), unicode_heavy=opts.get("unicode_heavy", False))
+            ws_inject=opts.get("ws_inject", False), unicode_heavy=opts.get("unicode_heavy", False),
+            long_inputs=opts.get("long_inputs", False))
     for vi, (vname, vg) in enumerate(variants):
         text = grender.render(vg, lay if opts.get("random_layout", True) and lay.random() < 0.5 else None, level=2)
         units.append({"base": index, "variant": vname, "grammar": vg, "text": text,
